@@ -194,6 +194,7 @@ void Kernel::Trace(Ev::Kind kind, int a, int b, const std::string& s, const std:
   e.kind = kind; e.seq = ++seq; e.time = now; e.sysno = proc->sysno;
   e.a = a; e.b = b; e.s = s; e.t = t;
   proc->res.trace.push_back(std::move(e));
+  if (on_event) on_event(proc->res.trace.back());
 }
 
 // ------------------------------------------------------------------ clock
@@ -279,6 +280,12 @@ void Kernel::AddActor(int64_t delay_ns, std::function<void(Kernel&)> fn) {
   if (!proc) return;
   Kernel* self = this;
   proc->events.emplace(std::make_pair(now + delay_ns, ++proc->ev_seq), [self, fn]() { fn(*self); });
+}
+
+void Kernel::SendSignal(int signo) {
+  if (!proc) return;
+  proc->pending |= 1ull << signo;
+  Trace(Ev::kSignal, signo, 0, "sent");
 }
 
 // ------------------------------------------------------------------ leaving a process
@@ -434,9 +441,10 @@ static void ChildRunStep(int pid, size_t idx) {
   auto it = P->children.find(pid);
   if (it == P->children.end()) return;
   Child& c = it->second;
-  if (c.exited || idx != c.next_step) return;
-  c.next_step = idx + 1;
-  ChildStep& st = c.plan.steps[idx];
+  // steps of one child keep their order even when their events tie in time
+  while (!c.exited && c.next_step <= idx && c.next_step < c.plan.steps.size()) {
+  size_t cur = c.next_step++;
+  ChildStep& st = c.plan.steps[cur];
   switch (st.kind) {
     case ChildStep::kOutput:
       if (c.console) {
@@ -456,6 +464,7 @@ static void ChildRunStep(int pid, size_t idx) {
       ChildDie(c, st.status);
       break;
   }
+  }
 }
 
 static void ScheduleChild(Kernel* k, int pid) {
@@ -473,15 +482,16 @@ static void ChildSignal(Child& c, int sig) {
   int mode = c.plan.on_signal;
   if (sig == SIGKILL) mode = 0;
   if (mode == 2) return;  // ignores the signal
+  c.killed = true;
   if (mode == 1) {
-    // had already started writing: run the first pending effect, then die
+    // had already started writing: the first pending effect runs (it sees
+    // c.killed and leaves partial results), then the child dies
     for (size_t i = c.next_step; i < c.plan.steps.size(); i++)
       if (c.plan.steps[i].kind == ChildStep::kEffect) {
         if (c.plan.steps[i].fn) c.plan.steps[i].fn(*g_k, c);
         break;
       }
   }
-  c.killed = true;
   c.next_step = c.plan.steps.size();
   ChildDie(c, sig & 0x7f);  // WIFSIGNALED encoding
 }
